@@ -888,9 +888,10 @@ class RaceHarness(Harness):
             relevant = fired.get("user_interrupt", 0) > 0
             if relevant:
                 # a cancellation that comes after race control has already processed the end of the benchmark cannot un-store results
-                t_int = [h[1] for h in out.system.history if h[2] == "keyboard-interrupt"][0]
-                t_bc = [t for t, m in rc_events if m == "BenchmarkComplete"]
-                if t_bc and t_bc[0] <= t_int:
+                # (race control learns about the cancellation through BenchmarkCancelled; a BenchmarkComplete that reaches it
+                # before that message was processed while the benchmark was, from its point of view, not cancelled)
+                order = [m for _, m in rc_events if m in ("BenchmarkComplete", "BenchmarkCancelled")]
+                if "BenchmarkComplete" in order and (order.index("BenchmarkComplete") < (order.index("BenchmarkCancelled") if "BenchmarkCancelled" in order else 10**9)):
                     return
         if kind == "worker-kill" and state.get("kill_done") is not None and not relevant:
             # the worker died after its part of the race was over: either outcome is acceptable, a hang is not
